@@ -18,6 +18,12 @@ CHECKS = {
         "The reference evaluator (sem.rs) is the trusted base; its reading of the manual is listed in DESIGN.md Appendix A. Floats: IEEE-exact except transcendentals/float powers (2 ulp); float = within the undocumented epsilon is discarded.",
         "6 C02",
     ),
+    "C13": (
+        "differential testing over schedules: proptest-generated programs single-stepped and interrupted at every instruction boundary (and every INPUT wait) then CONT, STOP/END inserted at random statement boundaries, and eight step quanta + random per-call quanta, all compared with the uninterrupted run",
+        "Exploration of the schedule space with a differential oracle: for short runs every k of 'interrupt after k instructions' is tried (sampled above 120/400), so each generated program contributes a complete sweep of its interruption points; output before the break + output after CONT, prompts, errors and final variables must equal the uninterrupted run; all quanta must give identical event streams.",
+        "Same implementation on both sides: detects schedule-dependent behaviour only. The verif-hooks probe classifies interruption points (inside the program, pending error) and detects the forced newline; comparisons use public events.",
+        "6 C13",
+    ),
     "C15": (
         "bounded-exhaustive enumeration of edit/LIST/DELETE histories over small line-number universes + proptest random long histories, against a BTreeMap reference model compared after every step",
         "Exploration with a reference model. Small scope is complete: every history of up to 3 operations (4 in thorough) over {0,1,10,65528,65529} and {0,10,65529}, every range form including inverted ones and numbers above 65529; after each operation the whole listing, every ranged LIST and Listing::line are compared with the model. Random histories of up to 60 operations cover the full number range.",
